@@ -593,7 +593,7 @@ open NemoVerif.RailsInterp in
 theorem flag_only_if_unchanged_witness :
     predefUpdates true "I can't respond to that ({{ block_reason }})." "I can't respond to that (input policy)." = [] ∧
     predefUpdates true "Blocked: $block_reason" "Blocked: output policy" = [] ∧
-    predefUpdates true "I'm sorry, I can't respond to that." "I'm sorry, I can't respond to that." = [("skip_output_rails", .bool true)] ∧
+    predefUpdates true "I will not answer that." "I will not answer that." = [("skip_output_rails", .bool true)] ∧
     predefUpdates false "Blocked: $block_reason" "Blocked: output policy" = [("skip_output_rails", .bool true)] := by
   decide +kernel
 
